@@ -1259,6 +1259,11 @@ func TestVerif_C19(t *testing.T) {
 	color.Output = c19Out
 	color.NoColor = true
 	p := vk.Env()
+	defer func() { // also on the replay path and after t.Fatal
+		if c19Dir != "" {
+			os.RemoveAll(c19Dir)
+		}
+	}()
 	res := vk.NewResult("explicit-state breadth-first search (vk.BFS) over all histories of edits to the watched file (valid versions v1..v3, lexer error, parser error, semantic compile error, failing static root, empty file, delete, unreadable, delete-then-recreate) on (A) the real hotReloadManager of `glyph dev` listening on a loopback port, driven through reload() with an HTTP GET after every edit, and (B) the library hotreload.ReloadManager with the real parser+compiler and a recording server, driven through file writes and virtual poll/debounce time. Every history up to the flat depth is executed (no deduplication); beyond it one search per first event is deduplicated by canonical state (version served | down, class of the file content, reference version, manager holds a server or not). Fixed histories also run through the real fsnotify watcher on the real clock. A state is non-trivial when distinct by its canonical form")
 	if p.Replay != "" {
 		var rp c19Replay
